@@ -1007,7 +1007,7 @@ func init() {
 		Require: []string{"rel_equal", "rel_compared-is-contraction", "rel_compared-is-refinement", "rel_incomparable", "tips_on", "tips_off", "identical_only_on", "identical_only_off",
 			"op_compare", "op_weighted", "op_commonedges", "weighted_terms", "sametree_true", "sametree_false", "swap_checked",
 			"presentation_ref_reroot", "presentation_ref_reorder", "presentation_comp_reroot", "presentation_comp_reorder",
-			"reject_checked", "reject_renamed", "reject_compared-subset", "reject_compared-superset"},
+			"pairs_on_case_twin_names", "reject_checked", "reject_renamed", "reject_compared-subset", "reject_compared-superset"},
 		Run: func(c *Ctx) {
 			// gotree allocates 16 kB scratch slices in every Edges()/Tips() call: with the tiny live heap of a
 			// worker the collector would run every few hundred comparisons
@@ -1019,8 +1019,21 @@ func init() {
 			if !c.Quick() {
 				pairSizes = []int{4, 5, 6}
 			}
+			type labelling struct {
+				n      int
+				labels []string
+			}
+			var labellings []labelling
 			for _, n := range pairSizes {
-				labels := enum.Labels(n, "")
+				labellings = append(labellings, labelling{n, enum.Labels(n, "")})
+			}
+			// taxa whose names differ only by case, or of which one is a prefix of another, are different taxa
+			labellings = append(labellings, labelling{4, []string{"a1", "A1", "b", "B"}}, labelling{5, []string{"Ab", "aB", "AB", "ab", "a"}})
+			for _, lb := range labellings {
+				n, labels := lb.n, lb.labels
+				if labels[0] != "A" {
+					c.Count("pairs_on_case_twin_names", 1)
+				}
 				ts := c08prepare(enum.Unrooted(labels, false))
 				for i := range ts {
 					for j := i; j < len(ts); j++ {
